@@ -1090,9 +1090,12 @@ CMR_ERROR CMRdblmatCreateFromSparseStream(CMR* cmr, FILE* stream, CMR_DBLMAT** p
   assert(!*presult);
   assert(stream);
 
-  size_t numRows, numColumns, numNonzeros;
-  int numRead = fscanf(stream, "%zu %zu %zu", &numRows, &numColumns, &numNonzeros);
-  if (numRead < 3)
+  long long signedNumRows = 0, signedNumColumns = 0, signedNumNonzeros = 0;
+  int numRead = fscanf(stream, "%lld %lld %lld", &signedNumRows, &signedNumColumns, &signedNumNonzeros);
+  size_t numRows = signedNumRows;
+  size_t numColumns = signedNumColumns;
+  size_t numNonzeros = signedNumNonzeros;
+  if (numRead < 3 || signedNumRows < 0 || signedNumColumns < 0 || signedNumNonzeros < 0)
   {
     CMRraiseErrorMessage(cmr, "Could not read number of rows, columns and nonzeros.");
     return CMR_ERROR_INPUT;
@@ -1197,9 +1200,12 @@ CMR_ERROR CMRintmatCreateFromSparseStream(CMR* cmr, FILE* stream, CMR_INTMAT** p
   assert(!*presult);
   assert(stream);
 
-  size_t numRows, numColumns, numNonzeros;
-  int numRead = fscanf(stream, "%zu %zu %zu", &numRows, &numColumns, &numNonzeros);
-  if (numRead < 3)
+  long long signedNumRows = 0, signedNumColumns = 0, signedNumNonzeros = 0;
+  int numRead = fscanf(stream, "%lld %lld %lld", &signedNumRows, &signedNumColumns, &signedNumNonzeros);
+  size_t numRows = signedNumRows;
+  size_t numColumns = signedNumColumns;
+  size_t numNonzeros = signedNumNonzeros;
+  if (numRead < 3 || signedNumRows < 0 || signedNumColumns < 0 || signedNumNonzeros < 0)
   {
     CMRraiseErrorMessage(cmr, "Could not read number of rows, columns and nonzeros.");
     return CMR_ERROR_INPUT;
@@ -1214,9 +1220,10 @@ CMR_ERROR CMRintmatCreateFromSparseStream(CMR* cmr, FILE* stream, CMR_INTMAT** p
   {
     size_t row;
     size_t column;
-    int value;
-    numRead = fscanf(stream, "%zu %zu %d", &row, &column, &value);
-    if (numRead < 3 || row == 0 || column == 0 || row > numRows || column > numColumns)
+    long long value;
+    numRead = fscanf(stream, "%zu %zu %lld", &row, &column, &value);
+    if (numRead < 3 || row == 0 || column == 0 || row > numRows || column > numColumns || value < INT_MIN
+      || value > INT_MAX)
     {
       CMR_CALL( CMRfreeStackArray(cmr, &nonzeros) );
       if (numRead == 2)
@@ -1304,9 +1311,12 @@ CMR_ERROR CMRchrmatCreateFromSparseStream(CMR* cmr, FILE* stream, CMR_CHRMAT** p
   assert(!*presult);
   assert(stream);
 
-  size_t numRows, numColumns, numNonzeros;
-  int numRead = fscanf(stream, "%zu %zu %zu", &numRows, &numColumns, &numNonzeros);
-  if (numRead < 3)
+  long long signedNumRows = 0, signedNumColumns = 0, signedNumNonzeros = 0;
+  int numRead = fscanf(stream, "%lld %lld %lld", &signedNumRows, &signedNumColumns, &signedNumNonzeros);
+  size_t numRows = signedNumRows;
+  size_t numColumns = signedNumColumns;
+  size_t numNonzeros = signedNumNonzeros;
+  if (numRead < 3 || signedNumRows < 0 || signedNumColumns < 0 || signedNumNonzeros < 0)
   {
     CMRraiseErrorMessage(cmr, "Could not read number of rows, columns and nonzeros.");
     return CMR_ERROR_INPUT;
@@ -1321,8 +1331,8 @@ CMR_ERROR CMRchrmatCreateFromSparseStream(CMR* cmr, FILE* stream, CMR_CHRMAT** p
   {
     size_t row;
     size_t column;
-    int value;
-    numRead = fscanf(stream, "%zu %zu %d", &row, &column, &value);
+    long long value;
+    numRead = fscanf(stream, "%zu %zu %lld", &row, &column, &value);
     if (numRead < 3 || row == 0 || column == 0 || row > numRows || column > numColumns || value < SCHAR_MIN
       || value > SCHAR_MAX)
     {
@@ -1488,9 +1498,11 @@ CMR_ERROR CMRdblmatCreateFromDenseStream(CMR* cmr, FILE* stream, CMR_DBLMAT** pr
   assert(!*presult);
   assert(stream);
 
-  size_t numRows, numColumns;
-  int numRead = fscanf(stream, "%zu %zu", &numRows, &numColumns);
-  if (numRead < 2)
+  long long signedNumRows = 0, signedNumColumns = 0;
+  int numRead = fscanf(stream, "%lld %lld", &signedNumRows, &signedNumColumns);
+  size_t numRows = signedNumRows;
+  size_t numColumns = signedNumColumns;
+  if (numRead < 2 || signedNumRows < 0 || signedNumColumns < 0)
   {
     CMRraiseErrorMessage(cmr, "Could not read number of rows and columns.");
     return CMR_ERROR_INPUT;
@@ -1563,9 +1575,11 @@ CMR_ERROR CMRintmatCreateFromDenseStream(CMR* cmr, FILE* stream, CMR_INTMAT** pr
   assert(!*presult);
   assert(stream);
 
-  size_t numRows, numColumns;
-  int numRead = fscanf(stream, "%zu %zu", &numRows, &numColumns);
-  if (numRead < 2)
+  long long signedNumRows = 0, signedNumColumns = 0;
+  int numRead = fscanf(stream, "%lld %lld", &signedNumRows, &signedNumColumns);
+  size_t numRows = signedNumRows;
+  size_t numColumns = signedNumColumns;
+  if (numRead < 2 || signedNumRows < 0 || signedNumColumns < 0)
   {
     CMRraiseErrorMessage(cmr, "Could not read number of rows and columns.");
     return CMR_ERROR_INPUT;
@@ -1589,9 +1603,9 @@ CMR_ERROR CMRintmatCreateFromDenseStream(CMR* cmr, FILE* stream, CMR_INTMAT** pr
     result->rowSlice[row] = entry;
     for (size_t column = 0; column < numColumns; ++column)
     {
-      int x;
-      numRead = fscanf(stream, "%d", &x);
-      if (numRead < 1)
+      long long x;
+      numRead = fscanf(stream, "%lld", &x);
+      if (numRead < 1 || x < INT_MIN || x > INT_MAX)
       {
         CMRraiseErrorMessage(cmr, "Could not read matrix entry in row %zu and column %zu.", row, column);
         CMRfreeBlockArray(cmr, &entryColumns);
@@ -1638,9 +1652,11 @@ CMR_ERROR CMRchrmatCreateFromDenseStream(CMR* cmr, FILE* stream, CMR_CHRMAT** pr
   assert(!*presult);
   assert(stream);
 
-  size_t numRows, numColumns;
-  int numRead = fscanf(stream, "%zu %zu", &numRows, &numColumns);
-  if (numRead < 2)
+  long long signedNumRows = 0, signedNumColumns = 0;
+  int numRead = fscanf(stream, "%lld %lld", &signedNumRows, &signedNumColumns);
+  size_t numRows = signedNumRows;
+  size_t numColumns = signedNumColumns;
+  if (numRead < 2 || signedNumRows < 0 || signedNumColumns < 0)
   {
     CMRraiseErrorMessage(cmr, "Could not read number of rows and columns.");
     return CMR_ERROR_INPUT;
